@@ -75,5 +75,42 @@ impl Loop {
 //@end
 }
 
+// ---------- cli.rs: `--frequency 0` selects one-shot mode, any other value is the daemon's period ----------
+pub struct NonZeroU64 { pub n: u64 }
+pub struct TryFromIntError;
+pub struct AnyErr;
+pub struct ParseIntError;
+// u64::try_into::<NonZeroU64>()
+#[verifier::external_body]
+pub fn u64_try_into_nonzero(v: u64) -> (r: Result<NonZeroU64, TryFromIntError>) ensures match r { Ok(nz) => v != 0 && nz.n == v, Err(_) => v == 0 } { unimplemented!() }
+pub trait ParseU64 { fn parse_u64(&self) -> (r: Result<u64, ParseIntError>); }
+pub uninterp spec fn parsed_u64(s: Seq<char>) -> Option<u64>;
+impl ParseU64 for str {
+    #[verifier::external_body]
+    fn parse_u64(&self) -> (r: Result<u64, ParseIntError>) ensures match r { Ok(v) => parsed_u64(self@) == Some(v), Err(_) => parsed_u64(self@) is None } { unimplemented!() }
+}
+pub trait CtxU64 { fn context(self, msg: &str) -> (r: Result<u64, AnyErr>); }
+impl CtxU64 for Result<u64, ParseIntError> {
+    #[verifier::external_body]
+    fn context(self, msg: &str) -> (r: Result<u64, AnyErr>) ensures match self { Ok(v) => r == Ok::<u64, AnyErr>(v), Err(_) => r is Err } { unimplemented!() }
+}
+//@item file=junos-agent/src/cli.rs kind=enum name=Frequency sub=/enum Frequency=>pub enum Frequency/
+pub open spec fn frequency_of(v: u64) -> Frequency { if v == 0 { Frequency::OneShot } else { Frequency::Daemon(NonZeroU64 { n: v }) } }
+impl Frequency {
+//@extract id=frequency_from_u64 file=junos-agent/src/cli.rs impl=/impl From<u64> for Frequency/ fn=from rules=R1,R7 r7mapor=result
+//@+ sub=/freq.try_into()=>u64_try_into_nonzero(freq)/
+//@sig pub fn from(freq: u64) -> (res: Self)
+//@contract
+        ensures res == frequency_of(freq),                                                    // OBL:C19.cli.zero_selects_one_shot
+//@end
+//@extract id=frequency_from_str file=junos-agent/src/cli.rs impl=/impl FromStr for Frequency/ fn=from_str rules=R1,R7 r7pathmap=result
+//@+ sub=/s.parse::<u64>()=>s.parse_u64()/
+//@sig pub fn from_str(s: &str) -> (res: Result<Self, AnyErr>)
+//@contract
+        // the period given on the command line is used as given (0 = one-shot); nothing is clamped or rewritten
+        ensures match parsed_u64(s@) { Some(v) => res == Ok::<Frequency, AnyErr>(frequency_of(v)), None => res is Err },   // OBL:C19.cli.frequency_used_as_given
+//@end
+}
+
 } // verus!
 fn main() {}
